@@ -624,17 +624,14 @@ run_batch(const BatchCfg &cfg, const CaseSource &src, JW *extra_cov)
         // report
         int n_viol = 0, n_known = 0, n_nondet = 0;
         std::set<std::string> printed;
+        std::map<std::string, int> known_hits; // listed finding -> workers that met it in this run
         for (auto &n : all.notes)
                 printf("%s\n", n.c_str());
         for (auto &x : all.viols) {
                 std::string sig = x.v.oracle + "|" + x.v.key;
                 if (x.known) {
                         n_known++;
-                        if (!printed.count("K" + x.known_what)) {
-                                printed.insert("K" + x.known_what);
-                                printf("KNOWN-FINDING: property=%s %s [%s]\n", x.v.prop.c_str(), x.known_what.c_str(),
-                                       x.v.key.c_str());
-                        }
+                        known_hits[x.known_what]++;
                         if (!x.replay.empty())
                                 unlink(x.replay.c_str());
                         continue;
@@ -653,6 +650,13 @@ run_batch(const BatchCfg &cfg, const CaseSource &src, JW *extra_cov)
                 printf("  oracle=%s seed=%llu key=%s\n  %s\n", x.v.oracle.c_str(), (unsigned long long) x.seed, x.v.key.c_str(),
                        x.v.detail.c_str());
         }
+        // one line per listed finding of this property, whether or not this run met it
+        for (auto &k : known)
+                if (k.kind == "finding" && k.prop == cfg.prop) {
+                        auto it = known_hits.find(k.what);
+                        printf("KNOWN-FINDING: property=%s %s [%s; met by %d of %d workers in this run]\n", cfg.prop.c_str(), k.what.c_str(),
+                               k.key.c_str(), it == known_hits.end() ? 0 : it->second, W);
+                }
 
         // evidence
         JW w;
